@@ -309,3 +309,28 @@ def run(ctx):
     for construct, ok, msg, rel_, line in eval_key_obligations(repo):
         if ":catch:" in construct or construct.endswith(":unpack") and "scheduler.py:catch" in construct:
             r8.check(ok, construct, msg, rel_, line)
+
+    # ---- C12.9 a failing job whose end is recorded has an error call node ------------------------------------
+    # The backend derives FAILED from the job's call node holding an ErrorValue (there is no status column): a reject path that records the job's
+    # end without having a call hash -- neither reused (`if job.call_hash`) nor freshly recorded -- shows a task that raised as DONE.
+    r9 = ctx.rule("C12.9", "every path of the reject finaliser to record_job_end establishes job.call_hash (reused or recorded with the ErrorValue)", floor=1)
+    rj9 = m.func("Scheduler._reject_job_main_thread")
+    jv9 = rj9.args.args[1].arg
+    cfg9 = CFG(rj9)
+    estab9 = set()
+    for n in cfg9.nodes:
+        if n.kind == "test" and isinstance(n.ast, ast.expr) and src(n.ast) == f"{jv9}.call_hash":
+            estab9 |= set(cfg9.edge_nodes(n, "T"))
+        if n.kind == "stmt" and isinstance(n.ast, ast.Assign) and any(src(t) == f"{jv9}.call_hash" for t in n.ast.targets) and isinstance(n.ast.value, ast.Call) and last_attr(n.ast.value) == "record_call_node":
+            estab9.add(n)
+    ends9 = [cfg9.node_of(c) for c in calls_in(rj9, shallow=True) if call_name(c) == "self.backend.record_job_end"]
+    if not ends9 or not estab9:
+        raise AnalysisError("reject finaliser: record_job_end / call-hash establishing statements not found", "Scheduler._reject_job_main_thread")
+    r9.check(
+        cfg9.must_pass(cfg9.entry, estab9, targets=ends9),
+        f"{m.rel}:Scheduler._reject_job_main_thread:error-node-before-job-end",
+        "a rejected job can have its end recorded without a call node (no `if job.call_hash` reuse and no record_call_node on the path): the backend reports a job as FAILED only through "
+        "its call node's ErrorValue, so a task that raised is recorded as DONE and its ancestors' records no longer show where the failure came from",
+        m.rel,
+        rj9.lineno,
+    )
